@@ -44,6 +44,22 @@ def _ret_true_nodes(c: Ctx, f: Func, cfg: CFG) -> list[Node]:
     return out
 
 
+def _token_kinds(c: Ctx, f: Func, stmt: ast.AST) -> set[str]:
+    """Kinds (first argument literals) of the push calls that define the receiver of `recv.map = ...` at stmt."""
+    from ..reach import Reaching
+    if not (isinstance(stmt, ast.Assign) and len(stmt.targets) == 1 and isinstance(stmt.targets[0], ast.Attribute)
+            and isinstance(stmt.targets[0].value, ast.Name)):
+        return set()
+    out: set[str] = set()
+    for d in Reaching(c.cfg(f)).at_ast(stmt, stmt.targets[0].value.id):
+        v = d.value
+        if d.kind == "assign" and isinstance(v, ast.Call) and v.args and isinstance(v.args[0], ast.Constant) and isinstance(v.args[0].value, str):
+            out.add(v.args[0].value)
+        else:
+            return set()
+    return out
+
+
 def rule_map(c: Ctx) -> RuleResult:
     r = RuleResult("MAP", "a block token's map is [the rule's start line, the cursor it returns with]; placeholder ends are patched "
                           "on every path")
@@ -155,6 +171,7 @@ def rule_map(c: Ctx) -> RuleResult:
                 continue
             # leaf form
             bad = ""
+            dev_ok = False
             for n in owners:
                 env = res[n.id]
                 vb = vn.val(b, env, n.id)
@@ -183,6 +200,12 @@ def rule_map(c: Ctx) -> RuleResult:
                            f"written): the map would be empty or stale")
                     break
                 if vb != cur:
+                    from ..valnum import add as _vadd
+                    if f.short == "lheading" and _vadd(vb, 1) == cur and _token_kinds(c, f, stmt) == {"inline"}:
+                        # the reviewed deviation, stated on values: the inline content of a setext heading ends one line before
+                        # the cursor (the underline is the last line of the block)
+                        dev_ok = True
+                        continue
                     bad = f"map end `{U(b)}` (value {vb}) is not the cursor {kline} (value {cur}) at this point"
                     break
                 for rn in rets:
@@ -195,6 +218,8 @@ def rule_map(c: Ctx) -> RuleResult:
                     break
             if bad:
                 r.add(key + "|end", where, f.short, U(stmt)[:80], "violation", bad)
+            elif dev_ok:
+                r.add(key, where, f.short, U(stmt)[:80], "exempt", "row-level map: " + DEVIATIONS[("lheading", "[P1, state.line - 1]")])
             else:
                 r.add(key + "|end", where, f.short, U(stmt)[:80], "discharged",
                       f"starts at `{start}`; end value-equals {kline}, which was advanced before and is not written again before return True")
